@@ -27,8 +27,13 @@ a.plain x:int y:string z:long = a.Plain;
 a.holder p:a.plain b:a.Boxed = a.Holder;
 a.boxed1 q:int = a.Boxed;
 a.two n:# k:# u:n.11?int v:k.12?int = a.Two;
+a.dbl {p:#} {q:#} x:p.11?int y:q.12?int = a.Dbl p q;
+a.useDbl n:# k:# d:(a.dbl n k) = a.UseDbl;
+a.mix {p:#} l:# x:p.13?int y:l.14?int = a.Mix p;
+a.useMix n:# d:(a.mix n) = a.UseMix;
 ---functions---
 @read a.get m:# k:m.15?int = a.Rec;
+@read a.getDbl f1:# f2:# = a.Dbl f1 f2;
 @read a.simple x:int = Int;
 `
 
@@ -50,6 +55,12 @@ var verifSafeCases = []verifLintCase{
 	{name: "add-function-with-leading-mask", from: "@read a.simple x:int = Int;", to: "@read a.simple x:int = Int;\n@read a.get2 fm:# x:fm.0?int = a.Rec;", accept: 1},
 	{name: "append-masked-function-argument", from: " k:m.15?int = a.Rec;", to: " k:m.15?int k2:m.20?long = a.Rec;", accept: 2, usedBy: []int{15}},
 	{name: "append-masked-field-second-mask", from: " v:k.12?int = a.Two;", to: " v:k.12?int w:k.20?int = a.Two;", accept: 2, usedBy: []int{12}},
+	// two template masks / a template and a local mask in one type: only the bits of the mask the new field hangs on count
+	{name: "append-masked-field-first-of-two-template-masks", from: " y:q.12?int = a.Dbl p q;", to: " y:q.12?int z:p.20?int = a.Dbl p q;", accept: 2, usedBy: []int{11}},
+	{name: "append-masked-field-second-of-two-template-masks", from: " y:q.12?int = a.Dbl p q;", to: " y:q.12?int z:q.20?int = a.Dbl p q;", accept: 2, usedBy: []int{12}},
+	{name: "append-masked-field-template-mask-beside-local-mask", from: " y:l.14?int = a.Mix p;", to: " y:l.14?int z:p.20?int = a.Mix p;", accept: 2, usedBy: []int{13}},
+	{name: "append-masked-field-local-mask-beside-template-mask", from: " y:l.14?int = a.Mix p;", to: " y:l.14?int z:l.20?int = a.Mix p;", accept: 2, usedBy: []int{14}},
+	{name: "append-masked-function-argument-on-mask-passed-to-result", from: "@read a.getDbl f1:# f2:# = a.Dbl f1 f2;", to: "@read a.getDbl f1:# f2:# e:f1.20?int = a.Dbl f1 f2;", accept: 2, usedBy: []int{11}},
 }
 
 var verifUnsafeCases = []verifLintCase{
